@@ -385,7 +385,7 @@ func (r *Resolver) AutoTA() {
 		}
 
 		if ta.DNSKey.Flags&DNSKEYFlagRevoke != 0 {
-			oldTag := tag - DNSKEYFlagRevoke
+			oldTag := unrevokedKeyTag(ta.DNSKey)
 			oldTA := kskCurrent[oldTag]
 			// RFC 5011 §4 state table: both Valid + RevBit and
 			// Missing + RevBit transition to revoked. Since Missing
@@ -617,6 +617,19 @@ func autoTARefreshFailureCounter(err error, fallback *metric.Counter) *metric.Co
 // of the real trust anchor. Comparing the actual key material
 // (algorithm, protocol, public key, and flags modulo REVOKE) closes
 // that gap.
+// unrevokedKeyTag returns the tag revokedKey had before its REVOKE bit
+// was set — the tag its anchor is tracked under. Setting the bit adds 128
+// to the checksum the tag is folded from, which is usually, but not
+// always, 128 more on the tag: when the addition carries out of the low
+// 16 bits the end-around carry makes it 129 (mod 65536). Subtracting the
+// flag value therefore misses the anchor of about one key in five
+// hundred, and that key's revocation would never be honoured.
+func unrevokedKeyTag(revokedKey *dns.DNSKEY) uint16 {
+	unrevoked := *revokedKey
+	unrevoked.Flags &^= DNSKEYFlagRevoke
+	return dnssec.KeyTag(&unrevoked)
+}
+
 func sameKeyExceptRevoke(currentKey, revokedKey *dns.DNSKEY) bool {
 	if currentKey == nil || revokedKey == nil {
 		return false
@@ -680,7 +693,7 @@ func stageRevocationSelfSignatures(
 			existing.DNSKey.Flags == ta.DNSKey.Flags {
 			continue
 		}
-		oldTA := kskCurrent[tag-DNSKEYFlagRevoke]
+		oldTA := kskCurrent[unrevokedKeyTag(ta.DNSKey)]
 		if oldTA == nil || (oldTA.State != StateValid && oldTA.State != StateMissing) {
 			continue
 		}
@@ -747,7 +760,7 @@ func verifyFetchedKeysWithWork(
 		if dnskey.Flags&DNSKEYFlagRevoke == 0 {
 			continue
 		}
-		for _, candidate := range currentKeys[dnssec.KeyTag(dnskey)-DNSKEYFlagRevoke] {
+		for _, candidate := range currentKeys[unrevokedKeyTag(dnskey)] {
 			if sameKeyExceptRevoke(candidate, dnskey) {
 				tag := dnssec.KeyTag(dnskey)
 				revokedBootstrap[tag] = append(revokedBootstrap[tag], dnskey)
